@@ -465,7 +465,7 @@ def gen_cases(rng, tier):
     # boundary histories first
     yield {'op': 'run', 'scale': 1, 'durs': DURS + ['D'], 'ops': [], 'clocks': std_clocks(2)}
     yield from exhaustive(4 if tier == 'quick' else 5)
-    yield from exhaustive(3 if tier == 'quick' else 4, MUTATORS + CONTEXT, must_contain=set(CONTEXT),
+    yield from exhaustive(3, MUTATORS + CONTEXT, must_contain=set(CONTEXT),
                           durs=[None, 3] if tier == 'quick' else DURS)
     for _ in range(3000 if tier == 'quick' else 60000):
         yield rand_case(rng, 40)
@@ -545,10 +545,12 @@ def search(rng, budget):
 
 RULE = ('correspondence + oracle: every call sequence of length 1..4 (quick) / 1..5 (thorough) over the 12 state-touching calls {start, stop, '
         'resume, restart, split, elapsed(), elapsed(2), leftover(), leftover(return_none=True), expired, __enter__, __exit__} x durations '
-        '{None, 0, 3, 10^6} x clocks {step 0, +1, +1000, backwards cycle +4,-6,+1}; random histories of length <= 40 and <= 400 over the full '
+        '{None, 0, 3, 10^6} x clocks {step 0, +1, +1000, backwards cycle +4,-6,+1}; every sequence of length 1..3 over those 12 plus 10 '
+        'context-manager tokens (direct __exit__ with the triple of a real ValueError / BaseException-only exception; real `with sw:` '
+        'statements with bodies of 0-2 calls that end normally or raise either class) containing at least one of the latter; random histories of length <= 40 and <= 400 over the full '
         'alphabet incl. has_started/has_stopped/splits, maxima incl. negative ones, durations incl. default/None/negative/10^12, dyadic '
         'scales {1, 1/4, 1/1024}, monotonic, constant, mixed and mostly-backwards clocks.  Oracle only (extra check all-sequences-upto-n): '
-        'EVERY sequence of length <= 6 (quick) / <= 10 (thorough) over the full 17-token alphabet x durations {None, default, 0, 3, 10^6} x '
+        'EVERY sequence of length <= 6 (quick) / <= 10 (thorough) over the full 27-token alphabet (incl. the 10 context-manager tokens) x durations {None, default, 0, 3, 10^6} x '
         'the 4 clocks, by exhaustive exploration of the configuration graph (histories leaving the object with equal __dict__, clock '
         'position and reference state are continued once).  distinct = distinct case JSON; trivial = empty history')
 TRUSTED = ['timeutils.now is replaced by a scripted clock (the property fixes the clock as an input); clock readings, durations and maxima are '
@@ -568,7 +570,9 @@ LEVEL_TEXT = ('Unbounded theorems (induction over all call sequences of any leng
               'it contradicts non-negativity); leftover = max(0, duration - elapsed) and the no-duration cases; expired <-> elapsed > duration; '
               'splits non-decreasing with lengths = successive differences under a monotonic clock, cleared exactly by (re)starts; the full '
               'legality table (13 methods x 3 states): every illegal call raises RuntimeError and leaves watch and clock untouched, every legal '
-              'call of every history returns, no other exception is ever raised; number of clock readings per call. The arithmetic facts are '
+              'call of every history returns, no other exception is ever raised; number of clock readings per call; context-manager protocol: '
+              '__exit__ with or without an exception triple never raises, returns None (the exception of the with body propagates) and stops a '
+              'running watch, and after any with block (any body, raising or not) the watch is stopped. The arithmetic facts are '
               'also proved for every ordered abelian group (not only Z).')
 LEVEL_NOTE = ('Trusted: Coq kernel; the translator tools/gen/gen_C13.py (CPython ast; A-normal form, state kept on raise, fail-closed with baseline '
               'fallback); numbers modelled as Z — the harness scripts clocks/durations/maxima that are integer multiples of 2^-k below 2^53, where '
